@@ -220,6 +220,8 @@ PROPS["C14"] = {
     "obligations": [
         {"name": "C14_actionConfig", "facts": ["actionConfig"]},
         {"name": "C14_fromDocumentShape", "facts": ["fromDocumentCases", "jsonPatchAddTemplate"]},
+        {"name": "C13_limits", "facts": ["maxIDLength", "maxServiceTypeLength", "idRegexp", "limitOps"]},
+        {"name": "Shape_Composer", "facts": "module:Composer"},
     ],
     "streams": [{"gen": "C14", "quick": 4000, "thorough": 200000}],
     "label": lambda r: _lab(r, r["model"].get("class")),
